@@ -38,9 +38,9 @@ TIE_THEOREMS = {"tables_ok_rydberg", "tables_ok_raman", "tables_ok_microwave", "
 
 COUNTS = {  # objects per family
     "quick": dict(channel=800, device=500, layout=1000, noise=1000, simconfig=800, register=1000, detmap=1000,
-                  config=700, results=1000, stateop=600),
+                  config=700, results=1000, stateop=600, configalias=300),
     "thorough": dict(channel=8000, device=6000, layout=10000, noise=10000, simconfig=6000, register=10000,
-                     detmap=10000, config=8000, results=10000, stateop=6000),
+                     detmap=10000, config=8000, results=10000, stateop=6000, configalias=3000),
 }
 
 TRUSTED_BASE = [
@@ -275,6 +275,9 @@ def run_case(model: Model | None, family: str, spec) -> CaseResult:
     extra: dict = {}
     if family == "stateop":
         res.fails = g.run_stateop(spec)
+        return res
+    if family == "configalias":
+        res.fails = g.run_configalias(spec)
         return res
     if family == "simconfig":
         res.fails, extra = g.monitor_simconfig(spec, obj)
@@ -578,7 +581,7 @@ def check(tier: str, seed: int) -> int:
 
     def aliasing_step(family, spec, res: CaseResult):
         """`prev[family]` was built earlier; this case constructed and decoded another object of the class."""
-        if res.obj is None or family in ("simconfig", "stateop"):
+        if res.obj is None or family in ("simconfig", "stateop", "configalias"):
             return
         if family in prev:
             pspec, pobj, psnap = prev[family]
@@ -759,12 +762,13 @@ def replay(path: str) -> int:
         for d in res.divs:
             print("model/implementation:", d)
             bad = True
-        if prev is not None and prev[1] is not None:
+        if prev is not None and prev[1] is not None and prev[2] is not None:
             for f in g.monitor_aliasing(family, prev[0], prev[1], prev[2], "constructing/decoding another object"):
                 report(f)
         with warnings.catch_warnings():
             warnings.simplefilter("ignore")
-            prev = (spec, res.obj, g.deep_snapshot(family, res.obj) if res.obj is not None else None)
+            prev = (spec, res.obj, g.deep_snapshot(family, res.obj)) if (
+                res.obj is not None and family not in ("simconfig", "stateop", "configalias")) else None
     if model is not None:
         model.close()
     if bad:
